@@ -8,6 +8,7 @@ mod peaks;
 mod gens;
 mod spec;
 mod formula;
+mod cbind;
 mod exec;
 
 fn main() {
